@@ -55,3 +55,12 @@ Theorem C09_ctor_accepts : forall Param Series LossV cfg0 (samplers : option (li
   (samplers = None <-> scheduler <> None) -> exists s, construct Param Series LossV cfg0 samplers scheduler = inl s.
 Proof. exact ctor_accepts. Qed.
 Print Assumptions C09_ctor_accepts.
+
+(* RL: the bootstrap sampler is a Halton sampler - the supplied one (the last of them) or one added at the end. *)
+Theorem C09_rl_bootstrap_spec : forall l fresh, s_class fresh = HALTON ->
+  let '(l', h) := rl_bootstrap l fresh in
+  (exists s, nth_error l' h = Some s /\ s_class s = HALTON) /\
+  ((exists s, In s l /\ s_class s = HALTON) -> l' = l) /\
+  ((forall s, In s l -> s_class s <> HALTON) -> l' = l ++ [fresh] /\ h = length l).
+Proof. exact rl_bootstrap_spec. Qed.
+Print Assumptions C09_rl_bootstrap_spec.
